@@ -991,6 +991,10 @@ class Engine:
             v = self.c.opaque_attr(self, path, obj, name)
             if v is not None:
                 return v
+        if isinstance(obj, SStr):
+            v = self.c.str_attr(self, path, obj, name)
+            if v is not None:
+                return v
         if not isinstance(obj, SRef):
             raise EngineError(f"attribute .{name} of {type(obj).__name__} (line {getattr(e, 'lineno', '?')})")
         prop = self.c.property_contract(obj, name)
@@ -1443,7 +1447,14 @@ class Engine:
 
     def m_SStr_rstrip(self, path, s, e):
         if e.args:
-            raise EngineError("rstrip(chars)")
+            # rstrip(chars): uninterpreted, with ground facts true of str.rstrip: a prefix of the subject that does not end in a stripped character
+            ch = self.ev(path, e.args[0])
+            r = RSTRIPCH(s.t, self.to_str(path, ch))
+            path.assume(z3.PrefixOf(r, s.t))
+            if isinstance(ch, SConst) and isinstance(ch.py, str):
+                for c1 in ch.py:
+                    path.assume(z3.Not(z3.SuffixOf(z3.StringVal(c1), r)))
+            return SStr(r)
         return SStr(self.c.rstrip(s.t))
 
     def m_SStr_split(self, path, s, e):
